@@ -85,6 +85,9 @@ func (c *Check) persistUnits(family, structType string) map[*Func][]*PersistPath
 					if sv.Op == "" && strings.HasPrefix(sv.At, "P") {
 						continue // plain setter
 					}
+					if c.constructedInCallee(e, structType) {
+						continue // the callee builds the stored value itself: the callee is the unit
+					}
 					isUnit = true
 				}
 			}
@@ -97,12 +100,15 @@ func (c *Check) persistUnits(family, structType string) map[*Func][]*PersistPath
 				continue
 			}
 			pp := &PersistPath{Fn: f, Path: pa, Facts: c.closeFacts(pa.AllFacts()), Calls: map[string]int{}}
-			for _, ev := range pa.Events {
+			for i, ev := range pa.Events {
 				if ev.Kind != EvCall {
 					continue
 				}
 				for _, e := range c.P.effectsOfEvent(f, ev) {
 					if !e.Commit {
+						continue
+					}
+					if c.effRefutedOnPath(pa, i, e) {
 						continue
 					}
 					pp.Calls[effDesc(e)]++
@@ -235,4 +241,26 @@ func fmtTerms(ts []*Term) string {
 		s = append(s, shortTerm(t))
 	}
 	return fmt.Sprint(s)
+}
+
+// constructedInCallee: the effect is performed by a direct callee which stores a value it has built itself (not one
+// of its parameters handed through) — the record is that callee's, whatever the distance to the store primitive.
+func (c *Check) constructedInCallee(e *Eff, structType string) bool {
+	if len(e.Chain) != 1 {
+		return false
+	}
+	g := c.P.FuncNamed(e.Chain[0])
+	if g == nil || c.P.pathsBusy[g] {
+		return false
+	}
+	for _, ge := range c.P.SummaryOf(g).Effs {
+		if ge.Kind != "store" || ge.Op != e.Op || ge.Family != e.Family || ge.Pos != e.Pos || len(ge.Chain) != 0 {
+			continue
+		}
+		sv := structIn(ge.Val, structType)
+		if sv != nil && !(sv.Op == "" && strings.HasPrefix(sv.At, "P")) {
+			return true
+		}
+	}
+	return false
 }
